@@ -47,8 +47,9 @@ def kernels(tier):
                         (lambda hand, kind: lambda x, o, h: view_obs(x, o, h, hand, kind))(hand, kind), hyps=vh, elem=elem, site=f"{T}::look_to_{hand}",
                         desc=f"{T}::look_to_{hand} is rigid, sends the eye to the origin, dir to {'-' if hand == 'rh' else '+'}Z and up into the +Y half of the YZ plane", timeout=200))
             n = 16 if kind == "m4" else 12
-            if kind == "a3" and tier == "quick":
-                continue      # the affine look_at equalities need ~50 s of nlsat each on an idle core (minutes under load): thorough tier only
+            if kind == "a3":
+                continue      # the affine look_at == look_to equalities need ~50 s of nlsat per entry on an idle core and come back `unknown` under load: not claimed
+                              # (Affine look_to is decided directly above; Mat4/DMat4 look_at == look_to is decided)
             ks.append(K(f"{T.lower()}_look_at_{hand}", 9, 2 * n, f"let e = {v3}(i, 0); let c = {v3}(i, 3); let u = {v3}(i, 6); {wr}(o, 0, {T}::look_at_{hand}(e, c, u)); {wr}(o, {n}, {T}::look_to_{hand}(e, (c - e).normalize(), u));",
                         (lambda n: lambda x, o, h: [(f"look_at == look_to(normalize(center - eye)) [{j}]", h.eq(o[j], o[n + j])) for j in range(n)])(n),
                         hyps=lambda x, h: [n2(R.sub(x[3:6], x[0:3])) > 0], elem=elem, site=f"{T}::look_at_{hand}", timeout=900))
